@@ -14,7 +14,7 @@ TERMS = {
     "str": ["a", "b", "c", "d", "e"], "int": ["a", "b", "c"], "clash": ["a", "b", "c"],
     "reserved": ["a", "#0UNION#", "#1CONC#"], "lower": ["a", "b", "Cap"], "termlike": ["a", "b", "c"],
 }
-VCS = ["str", "str", "str", "int", "clash", "reserved", "lower", "termlike"]
+VCS = ["str", "str", "str", "int", "clash", "reserved", "lower", "termlike", "inject", "inject"]
 
 
 def random_case(rng, max_vars=4, max_terms=2, max_prods=7, max_body=4, vcs=None, p_eps=None):
@@ -41,6 +41,10 @@ def random_case(rng, max_vars=4, max_terms=2, max_prods=7, max_body=4, vcs=None,
     start = 0 if r < 0.93 else (None if r < 0.96 else nv)      # nv: a start symbol without productions
     vc = rng.choice(vcs or VCS)
     c = {"nv": nv, "nt": nt, "start": start, "prods": prods, "vc": vc}
+    if vc == "inject":
+        perm = list(range(8))
+        rng.shuffle(perm)
+        c["perm"] = perm
     if rng.random() < 0.5:
         c["shuffle"] = rng.randrange(1 << 30)
     return c
@@ -67,12 +71,17 @@ def two_route_case(rng):
 
 
 def vval(c, i):
+    if c["vc"] == "inject":
+        # order injection: the harness chooses the hash, hence the iteration order of the variable set
+        from vf.values import K
+        perm = c.get("perm") or list(range(8))
+        return K("V%d" % i if i else "S", perm[i % len(perm)])
     names = VARS[c["vc"]]
     return names[i] if i < len(names) else "V%d" % i
 
 
 def tval(c, j):
-    names = TERMS[c["vc"]]
+    names = TERMS["str" if c["vc"] == "inject" else c["vc"]]
     return names[j] if j < len(names) else "t%d" % j
 
 
